@@ -25,6 +25,9 @@ static bool gen_c12(uint64_t seed, const std::string &tier, uint64_t i, Plan &p)
   Rng r(p.seed);
   p.knobs.set("oracles", oracle_list({"c12"}));
   int64_t start = 1500000000 + (int64_t)r.below(100000000);
+  // clocks from the whole range of a 32-bit time_t now and then: before 2000-03-01 (the calendar code's internal epoch), around
+  // leap days and century boundaries, near 2038
+  if (r.chance(0.25)) start = r.pick(std::vector<int64_t>{0, 86400 * 365, 68169600 /* 1972-02-29 */, 946684799 /* 1999-12-31 23:59:59 */, 951782400 /* 2000-02-29 */, 951868799, 951868800 /* 2000-03-01 */, 1078012800 /* 2004-02-29 */, 2147400000, (int64_t)r.below(951868800), (int64_t)r.below(2147000000)}) + (int64_t)r.below(86400);
   p.knobs.set("start_clock", (long long)start);
   Json home = Json::obj(); home.set("path", "/home/user1").set("mode", 0755);
   Json files = Json::arr();
